@@ -118,6 +118,15 @@ SEEDS = {
  'C16-r4-open-data-new-extent': (None, 'C16', 'opened image, an edit that moves files, a layout recomputation, then a read', ['C16']),
  'C19-r4-offset-from-todays-rules': (None, 'C19', 'a tzdata zone whose offset for the same DST state was different at the recorded instant (Europe/Moscow 2011-2014, Europe/London 1968-1971, ...)', ['C19']),
  'C19-r4-udf-year-rollover': (None, 'C19', 'a zone other than UTC and an instant at which the local year differs from the UTC year (UDF timestamps only)', ['C19']),
+ # ---- round 5
+ 'C02-r5-eltorito-length-fixup-late': (None, 'C02', 'an El Torito boot file longer than sector_count*512 bytes that has no ISO9660 name but a Joliet name, parsed from an image, then written again', ['C02']),
+ 'C04-r5-ce-hole-one-byte-too-big': (None, 'C04', 'as C04-r2-ce-gap-inclusive-end (independently written): a hole between continuation entries and a new entry one byte larger', ['C04']),
+ 'C05-r5-shared-hidden-boot-length': (None, 'C05', 'one boot file used by two El Torito entries, longer than the first entry says, its ISO9660 name removed while a Joliet name remains; write, open, write', ['C05', 'C11', 'C07']),
+ 'C07-r5-hidden-boot-inode-unregistered': (None, 'C07', 'a boot file with no ISO9660 name but a Joliet or UDF name, written and reopened (the El Torito entry and the name get separate inodes)', ['C07']),
+ 'C09-r5-dirwriter-ge-exact-fit': (None, 'C09', 'as C01-r2-dirwriter-ge-exact-fit (independently written): a Joliet directory whose records fill a sector exactly', ['C09']),
+ 'C14-r5-udf-dup-raw-name-compare': (None, 'C14', 'a UDF entry with a non-ASCII name, then an add with a fresh iso_path/joliet_path and that taken udf_path', ['C14']),
+ 'C15-r5-dir-dag-exponential-walk': (None, 'C15', 'directory records of one level sharing an extent (a DAG, not a cycle) over 25 or more levels: 2^n walk', ['C15']),
+ 'C18-r5-upper-ext-length': (None, 'C18', 'a file name whose 1..3 character extension grows when upper-cased (sharp s, ligatures)', ['C18']),
 }
 only = sys.argv[1:]
 if only == ['--collect']:
